@@ -24,7 +24,8 @@ type gen struct {
 	e   *env
 	rng *rand.Rand
 
-	skipWebH2 bool
+	skipWebH2    bool
+	withheldSeen map[string]bool
 }
 
 // msgs materialises a sequence of message kinds:
@@ -231,6 +232,10 @@ func (g *gen) sweepTruncation(c *Case, offsets []int) {
 			}
 			scheds = append(scheds, ones, g.randomCuts(t))
 			names = append(names, "byte-reads", "random-partition")
+			for i := 0; i < g.r.Pick(0, 4); i++ {
+				scheds = append(scheds, g.randomCuts(t))
+				names = append(names, "random-partition")
+			}
 		}
 		for si, cuts := range scheds {
 			for mode := 0; mode < 3; mode++ {
@@ -300,7 +305,7 @@ func RunC06(r *mon.Run) {
 		return
 	}
 	defer e.close()
-	g := &gen{r: r, e: e, rng: r.Rand("stream")}
+	g := &gen{r: r, e: e, rng: r.Rand("stream"), withheldSeen: map[string]bool{}}
 
 	g.laneSchedules()
 	g.laneUploads(limits)
@@ -321,8 +326,11 @@ func RunC06(r *mon.Run) {
 func (g *gen) laneSchedules() {
 	r := g.r
 	exh := r.Pick(8, 12)
-	samples := r.Pick(2, 8)
+	samples := r.Pick(2, 10)
 	short := [][]string{{}, {"E"}, {"T"}, {"E", "E"}, {"T", "E"}, {"E", "T", "E"}, {"T", "T"}, {"E", "E", "E", "E", "E", "E"}, {"T", "E", "T", "E"}, {"T", "T", "T", "T"}}
+	if r.Thorough() {
+		short = append(short, []string{"T", "E", "E"}, []string{"E", "T", "T"}, []string{"T", "T", "E", "E"}, []string{"E", "E", "T", "E", "E"}, []string{"D1"}, []string{"D2", "E"}, []string{"D3"}, []string{"E", "D1", "E"}, []string{"T", "T", "T"}, []string{"E", "E", "E"})
+	}
 	idx := 0
 	for _, tc := range msgTransports {
 		for _, kinds := range short {
@@ -366,7 +374,7 @@ func (g *gen) laneSchedules() {
 	}
 	// longer sequences with boundary sizes, sampled schedules
 	kindsPool := []string{"E", "T", "X", "D1", "D7", "D40", "D123", "D124", "D125", "D126", "D300", "A"}
-	nseq := r.Pick(6, 60)
+	nseq := r.Pick(6, 450)
 	for _, tc := range msgTransports {
 		for i := 0; i < nseq; i++ {
 			n := g.rng.Intn(7)
@@ -476,6 +484,20 @@ func (g *gen) laneUploads(limits []int) {
 			}
 		}
 	}
+	// gzip-encoded uploads (the decoded bytes are chunked)
+	for _, L := range []int{7, 100} {
+		for _, n := range []int{0, 1, L, 2*L + 1, 4 * L} {
+			up := prf(g.rng, n)
+			for _, mode := range []string{"httpbody", "httpbody-reader"} {
+				if mode == "httpbody-reader" {
+					continue // the passthrough hands out the raw (encoded) body reader
+				}
+				c := &Case{T: "http", Codec: mode, CE: "gzip", Shape: "upload", Limit: L, Trunc: -1, Msgs: [][]byte{up}, Reply: [][]byte{{}}}
+				build(c, bodyOpt{})
+				g.sweepSchedules(c, 0, r.Pick(2, 6))
+			}
+		}
+	}
 	// aborted uploads: prefix of the bytes, then a non-EOF error
 	for _, L := range []int{7, 64} {
 		up := prf(g.rng, 3*L+2)
@@ -504,7 +526,8 @@ func (g *gen) laneTruncation() {
 	samples := r.Pick(3, 12)
 	seqs := [][]string{{"T"}, {"T", "T"}, {"T", "E", "T"}, {"D5", "T"}, {"E", "D3"}, {"D130"}, {"T", "D200", "T"}}
 	if r.Thorough() {
-		seqs = append(seqs, []string{"D20", "D20"}, []string{"E", "E", "T"}, []string{"D126", "D127"}, []string{"X", "T", "X"}, []string{"D40", "E", "T", "D3", "T", "E"})
+		seqs = append(seqs, []string{"D20", "D20"}, []string{"E", "E", "T"}, []string{"D126", "D127"}, []string{"X", "T", "X"}, []string{"D40", "E", "T", "D3", "T", "E"},
+			[]string{"E"}, []string{"D1", "D2", "D3"}, []string{"T", "T", "T", "T", "T", "T"}, []string{"D50", "E"}, []string{"X", "D16"}, []string{"D300", "T"})
 	}
 	idx := 0
 	for _, tc := range msgTransports {
@@ -641,7 +664,7 @@ func Replay(r *mon.Run, raw json.RawMessage) {
 		return
 	}
 	defer e.close()
-	g := &gen{r: r, e: e, rng: r.Rand("stream")}
+	g := &gen{r: r, e: e, rng: r.Rand("stream"), withheldSeen: map[string]bool{}}
 	var vs []viol
 	var outcome string
 	if c.Lane == "inproc" || c.Lane == "" {
